@@ -2433,6 +2433,10 @@ CK_RV SoftHSM::AsymEncryptInit(CK_SESSION_HANDLE hSession, CK_MECHANISM_PTR pMec
 	if (!key->getBooleanValue(CKA_ENCRYPT, false))
 		return CKR_KEY_FUNCTION_NOT_PERMITTED;
 
+	// Check if the specified mechanism is allowed for the key
+	if (!isMechanismPermitted(key, pMechanism))
+		return CKR_MECHANISM_INVALID;
+
 	// Get key info
 	CK_KEY_TYPE keyType = key->getUnsignedLongValue(CKA_KEY_TYPE, CKK_VENDOR_DEFINED);
 
@@ -3647,6 +3651,10 @@ CK_RV SoftHSM::C_DigestInit(CK_SESSION_HANDLE hSession, CK_MECHANISM_PTR pMechan
 
 	// Check if we have another operation
 	if (session->getOpType() != SESSION_OP_NONE) return CKR_OPERATION_ACTIVE;
+
+	// Check if the mechanism is enabled in the configuration (slots.mechanisms)
+	if (std::find(supportedMechanisms.begin(), supportedMechanisms.end(), pMechanism->mechanism) == supportedMechanisms.end())
+		return CKR_MECHANISM_INVALID;
 
 	// Get the mechanism
 	HashAlgo::Type algo = HashAlgo::Unknown;
@@ -5885,6 +5893,10 @@ CK_RV SoftHSM::C_GenerateKey(CK_SESSION_HANDLE hSession, CK_MECHANISM_PTR pMecha
 	Session* session = (Session*)handleManager->getSession(hSession);
 	if (session == NULL) return CKR_SESSION_HANDLE_INVALID;
 
+	// Check if the mechanism is enabled in the configuration (slots.mechanisms)
+	if (std::find(supportedMechanisms.begin(), supportedMechanisms.end(), pMechanism->mechanism) == supportedMechanisms.end())
+		return CKR_MECHANISM_INVALID;
+
 	// Check the mechanism, only accept DSA and DH parameters
 	// and symmetric ciphers
 	CK_OBJECT_CLASS objClass;
@@ -6038,6 +6050,10 @@ CK_RV SoftHSM::C_GenerateKeyPair
 	// Get the session
 	Session* session = (Session*)handleManager->getSession(hSession);
 	if (session == NULL) return CKR_SESSION_HANDLE_INVALID;
+
+	// Check if the mechanism is enabled in the configuration (slots.mechanisms)
+	if (std::find(supportedMechanisms.begin(), supportedMechanisms.end(), pMechanism->mechanism) == supportedMechanisms.end())
+		return CKR_MECHANISM_INVALID;
 
 	// Check the mechanism, only accept RSA, DSA, EC and DH key pair generation.
 	CK_KEY_TYPE keyType;
